@@ -19,3 +19,15 @@ package signed
 //@   ensures good: err == nil ==> signedok(ref(pk), bytes(signed))
 //@   modifies anyfields(dst)
 //@   mustfail canary: err != nil
+
+//@ func UnmarshalPublicKey
+//@   property C18
+//@   trusted crypto/x509 parsing is external; it allocates its result and changes nothing else
+//@   ensures ok: err == nil ==> result0 != nil
+//@   ensures fail: err != nil ==> result0 == nil
+//@   modifies nothing
+
+//@ func UnmarshalPrivateKey
+//@   property C18
+//@   trusted crypto/x509 parsing is external; it allocates its result and changes nothing else
+//@   modifies nothing
